@@ -433,7 +433,7 @@ Proof.
   assert (HJ1 : Jcore p (st_h st) (s_vals (st_store st)) (fst (fill_price p (st_mem st) (t_feeder t) (t_val t) (t_nonce t) (t_prices t)))).
   { apply (fill_price_J p _ _ _ _ _ _ _ r0); assumption. }
   destruct (fill_price p (st_mem st) (t_feeder t) (t_val t) (t_nonce t) (t_prices t)) as [m1 res]. simpl in HJ1.
-  destruct res as [|it|price rid]; unfold Jmid; simpl.
+  destruct res as [|it|price rid it]; unfold Jmid; simpl.
   - destruct (st_store st); simpl in *. exact HJ1.
   - destruct (st_store st); simpl in *. eapply Jcore_same; [| | | | |exact HJ1]; destruct m1; reflexivity.
   - destruct (st_store st); simpl in *. eapply Jcore_same; [| | | | |exact HJ1]; destruct m1; reflexivity.
@@ -627,8 +627,8 @@ Proof.
   destruct (Hsub _ _ Ew) as [A _]. simpl in A. discriminate.
 Qed.
 
-Lemma replay_block_inv p vals msgs b m : params_ok p -> aget b msgs = None ->
-  Rst p vals (b - 1) m -> Rst p vals b (replay_block p msgs m b).
+Lemma replay_block_inv p vals msgs b m n : params_ok p -> aget b msgs = None ->
+  Rst p vals (b - 1) m -> Rst p vals b (fst (replay_block p msgs None (m, n) b)).
 Proof.
   intros Hok Hn HR. unfold replay_block. rewrite Hn.
   destruct (prepare_mem_RT p vals (b - 1) m Hok HR) as [A1 [A2 [A3 [A4 [A5 [A6 A7]]]]]].
@@ -637,17 +637,20 @@ Proof.
   destruct (seal p b false m1) as [[m3 fl] sl]. simpl in HS. exact HS.
 Qed.
 
-Lemma replay_fold_inv p vals msgs : params_ok p -> forall n from m,
+Lemma replay_fold_inv p vals msgs : params_ok p -> forall n from m k,
   (forall b, from <= b -> aget b msgs = None) ->
   Rst p vals (from - 1) m ->
-  Rst p vals (from + Z.of_nat n - 1) (fold_left (replay_block p msgs) (zrange from n) m).
+  Rst p vals (from + Z.of_nat n - 1) (fst (fold_left (replay_block p msgs None) (zrange from n) (m, k))).
 Proof.
-  intros Hok. induction n as [|n IH]; intros from m Hn HR.
+  intros Hok. induction n as [|n IH]; intros from m k Hn HR.
   - simpl. replace (from + 0 - 1) with (from - 1) by lia. exact HR.
-  - simpl zrange. simpl fold_left.
-    replace (from + Z.of_nat (S n) - 1) with ((from + 1) + Z.of_nat n - 1) by lia.
-    apply IH; [intros b Hb; apply Hn; lia|].
-    replace (from + 1 - 1) with from by lia. apply replay_block_inv; [assumption | apply Hn; lia | exact HR].
+  - replace (from + Z.of_nat (S n) - 1) with ((from + 1) + Z.of_nat n - 1) by lia.
+    pose proof (replay_block_inv p vals msgs from m k Hok (Hn from ltac:(lia))) as Hb.
+    change (fold_left (replay_block p msgs None) (zrange from (S n)) (m, k))
+      with (fold_left (replay_block p msgs None) (zrange (from + 1) n) (replay_block p msgs None (m, k) from)).
+    destruct (replay_block p msgs None (m, k) from) as [m' k']. simpl fst in Hb.
+    apply (IH (from + 1) m' k'); [intros b Hb'; apply Hn; lia|].
+    replace (from + 1 - 1) with from by lia. apply Hb. exact HR.
 Qed.
 
 (* ---- idle restart points are synced ------------------------------------------------------------------------- *)
@@ -695,8 +698,8 @@ Qed.
 (* the restart-point conditions, all on the committed store / params / height *)
 Definition quiet (p : params) (st : state) : Prop :=
   idle p (st_h st - 1) /\
-  (forall b, st_h st - default_maxnonce + 1 <= b -> aget b (s_msgs (st_store st)) = None) /\
-  match s_vub (st_store st) with Some v => v < st_h st - default_maxnonce + 1 | None => True end.
+  (forall b, st_h st - p_maxnonce p + 1 <= b -> aget b (s_msgs (st_store st)) = None) /\
+  match s_vub (st_store st) with Some v => v < st_h st - p_maxnonce p + 1 | None => True end.
 
 Lemma quiet_synced p st :
   params_ok p -> Jbound p st -> safe (st_store st) (st_mem st) -> quiet p st -> synced p st.
@@ -705,18 +708,18 @@ Proof.
   pose proof Hok as [ND [Hmn [NE HI]]].
   set (H := st_h st) in *. set (s := st_store st) in *. set (mn := p_maxnonce p) in *.
   (* the recached memory *)
-  assert (Hfrom : (match s_vub s with Some v => if H - default_maxnonce + 1 <=? v then v + 1 else H - default_maxnonce + 1 | None => H - default_maxnonce + 1 end) = H - default_maxnonce + 1).
-  { destruct (s_vub s) as [v|]; [|reflexivity]. destruct (H - default_maxnonce + 1 <=? v) eqn:E; [apply Z.leb_le in E; lia | reflexivity]. }
+  assert (Hfrom : (match s_vub s with Some v => if H - mn + 1 <=? v then (v, Some v) else (H - mn + 1, None) | None => (H - mn + 1, None) end) = (H - mn + 1, @None Z)).
+  { destruct (s_vub s) as [v|]; [|reflexivity]. destruct (H - mn + 1 <=? v) eqn:E; [apply Z.leb_le in E; lia | reflexivity]. }
   assert (Hrec : exists mr, recache p s H = mr /\ RT p (H - 1) (m_rounds mr) /\ m_workers mr = [] /\ m_vals mr = s_vals s /\
                  m_cvals mr = s_vals s /\ m_msgs mr = [] /\ m_vupd mr = false /\ m_panic mr = false).
-  { unfold recache. rewrite Hfrom.
-    destruct (H <=? H - default_maxnonce + 1) eqn:E; [apply Z.leb_le in E; unfold default_maxnonce in E; lia|].
-    set (from := H - default_maxnonce + 1).
+  { unfold recache. fold mn. rewrite Hfrom.
+    destruct (H <=? H - mn + 1) eqn:E; [apply Z.leb_le in E; lia|].
+    set (from := H - mn + 1).
     assert (HR0 : Rst p (s_vals s) (from - 1) (empty_mem (s_vals s))).
     { unfold Rst, empty_mem. simpl. split; [|repeat split; reflexivity]. split; [apply ksorted_nil|]. intros fid r Hr. simpl in Hr. discriminate. }
-    pose proof (replay_fold_inv p (s_vals s) (s_msgs s) Hok (Z.to_nat (H - from)) from (empty_mem (s_vals s))
+    pose proof (replay_fold_inv p (s_vals s) (s_msgs s) Hok (Z.to_nat (H - from)) from (empty_mem (s_vals s)) 0
                   (fun b Hb => Hnm b Hb) HR0) as HR1.
-    replace (from + Z.of_nat (Z.to_nat (H - from)) - 1) with (H - 1) in HR1 by (unfold from, default_maxnonce; lia).
+    replace (from + Z.of_nat (Z.to_nat (H - from)) - 1) with (H - 1) in HR1 by (unfold from; lia).
     pose proof (prepare_mem_RT p (s_vals s) (H - 1) _ Hok HR1) as HP.
     eexists. split; [reflexivity|]. exact HP. }
   destruct Hrec as [mr [Er [RTr [Wr [Vr [Cr [Mr [Ur Pr]]]]]]]].
@@ -737,8 +740,8 @@ Qed.
 (* ---- decidable versions for examples ------------------------------------------------------------------------- *)
 Definition quiet_b (p : params) (st : state) : bool :=
   forallb (fun f => (st_h st - 1 <? f_start f) || (p_maxnonce p <=? leftb f (st_h st - 1))) (p_feeders p) &&
-  forallb (fun e => fst e <? st_h st - default_maxnonce + 1) (s_msgs (st_store st)) &&
-  match s_vub (st_store st) with Some v => v <? st_h st - default_maxnonce + 1 | None => true end.
+  forallb (fun e => fst e <? st_h st - p_maxnonce p + 1) (s_msgs (st_store st)) &&
+  match s_vub (st_store st) with Some v => v <? st_h st - p_maxnonce p + 1 | None => true end.
 
 Lemma quiet_b_sound p st : quiet_b p st = true -> quiet p st.
 Proof.
